@@ -48,9 +48,11 @@ def pRsaCert : Str := s "ssh-rsa-cert-v0"
 def pEdCert : Str := s "ssh-ed25519-cert-v0"
 def pEd : Str := s "ssh-ed25519"
 def pEcdsa : Str := s "ecdsa-sha2-nistp"
+def pSshRsa : Str := s "ssh-rsa"
 
-/-- `__parse_ca_key(hostkey, hostkey_type, ptr)` on the bytes from `ptr` on: (CA key type, CA key length in bytes) -/
-def parseCaKey (r0 : Bytes) : Except Exn (Str × Nat) := do
+/-- `__parse_ca_key(hostkey, hostkey_type, ptr)` on the bytes from `ptr` on: (CA key type, CA key length in bytes,
+    `__ca_n_bits`: the bit length of the modulus of an `ssh-rsa` CA key, else 0) -/
+def parseCaKey (r0 : Bytes) : Except Exn (Str × Nat × Nat) := do
   let r := r0.drop 8                                   -- serial
   let certType ← hexInt (r.take 4)
   let r := r.drop 4
@@ -64,22 +66,26 @@ def parseCaKey (r0 : Bytes) : Except Exn (Str × Nat) := do
     let (caKey, _, _) ← getBytes r
     let (tb, _, c) ← getBytes caKey
     let caType ← asciiDecode tb
-    if caType = tEd25519 then pure (caType, 32)
+    if caType = tEd25519 then pure (caType, 32, 0)
     else do
       let (_, _, c) ← getBytes c                       -- exponent / curve name
       let (n, nLen, _) ← getBytes c                    -- modulus / point
+      -- `if ca_key_type == 'ssh-rsa' and ca_key_n_len > 0: self.__ca_n_bits = int(hexlify(ca_key_n), 16).bit_length()`
+      let bits ← (if caType = tRsa ∧ nLen > 0 then do let v ← hexInt n; pure (bitLen v) else pure 0)
       if Text.startsWith caType pEcdsa ∧ nLen > 0 then
         match n with
         | [] => .error .index                          -- `ca_key_n[0]` on a truncated field
-        | b :: _ => if b = 4 then pure (caType, (nLen - 1) / 2) else pure (caType, nLen)
-      else pure (caType, nLen)
-  else pure ([], 0)
+        | b :: _ => if b = 4 then pure (caType, (nLen - 1) / 2, bits) else pure (caType, nLen, bits)
+      else pure (caType, nLen, bits)
+  else pure ([], 0, 0)
 
 structure Parsed where
   keyType : Str
   nLen : Nat          -- `__hostkey_n_len`
+  nBits : Nat         -- `__hostkey_n_bits`
   caType : Str
   caNLen : Nat        -- `__ca_n_len`
+  caNBits : Nat       -- `__ca_n_bits`
 deriving Repr, DecidableEq
 
 /-- the part of `recv_reply` that picks the host-key blob apart -/
@@ -89,14 +95,15 @@ def parseHostKey (hostkey : Bytes) : Except Exn Parsed := do
   let r ← (if Text.startsWith ty pRsaCert then do let (_, _, r) ← getBytes r; pure r else pure r)
   let (e, _, r) ← getBytes r
   let _ ← hexInt e
-  let (nLen, r) ← (if ty = tEd25519 then pure (32, r) else if ty = tEd448 then pure (57, r) else do
+  let (nLen, nBits, r) ← (if ty = tEd25519 then pure (32, 0, r) else if ty = tEd448 then pure (57, 0, r) else do
       let (n, nLen, r) ← getBytes r
-      let _ ← hexInt n
-      pure (nLen, r))
+      let v ← hexInt n
+      -- `if self.__hostkey_type.startswith('ssh-rsa'): self.__hostkey_n_bits = self.__hostkey_n.bit_length()`
+      pure (nLen, (if Text.startsWith ty pSshRsa then bitLen v else 0), r))
   if Text.startsWith ty pRsaCert ∨ Text.startsWith ty pEdCert then do
-    let (caT, caLen) ← parseCaKey r
-    pure { keyType := ty, nLen := nLen, caType := caT, caNLen := caLen }
-  else pure { keyType := ty, nLen := nLen, caType := [], caNLen := 0 }
+    let (caT, caLen, caBits) ← parseCaKey r
+    pure { keyType := ty, nLen := nLen, nBits := nBits, caType := caT, caNLen := caLen, caNBits := caBits }
+  else pure { keyType := ty, nLen := nLen, nBits := nBits, caType := [], caNLen := 0, caNBits := 0 }
 
 /-- `recv_reply` on the payload of a KEXDH_REPLY / KEXDH_GEX_REPLY (after the message byte):
     the host-key blob and what was parsed from it -/
@@ -111,6 +118,11 @@ def recvReply (payload : Bytes) : Except Exn (Bytes × Parsed) := do
 def adjustKeySize (size : Nat) : Nat :=
   let size := size * 8
   if (size / 8) % 2 ≠ 0 then size - 8 else size
+
+/-- `get_hostkey_size()`: the bit length of an RSA modulus when one was measured, else the byte-length rule -/
+def Parsed.size (p : Parsed) : Nat := if p.nBits > 0 then p.nBits else adjustKeySize p.nLen
+/-- `get_ca_size()` -/
+def Parsed.caSize (p : Parsed) : Nat := if p.caNBits > 0 then p.caNBits else adjustKeySize p.caNLen
 
 /-! ### hostkeytest.py -/
 
@@ -140,7 +152,7 @@ def probeResult : Outcome → Probe
   | .reply p =>
     match recvReply p with
     | .error _ => .skip
-    | .ok (blob, q) => .got { raw := blob, info := { size := adjustKeySize q.nLen, caType := q.caType, caSize := adjustKeySize q.caNLen } }
+    | .ok (blob, q) => .got { raw := blob, info := { size := q.size, caType := q.caType, caSize := q.caSize } }
 
 /-- tables and texts the code reads (`HOST_KEY_TYPES`, `RSA_FAMILY`, the two warning texts, the keys of `KEX_TO_DHGROUP`) -/
 structure Cfg where
@@ -389,9 +401,6 @@ def edCert (pk : Bytes) (certType : Nat) (f : CertFields) (ca : Bytes) : Bytes :
 
 /-- RFC 4253 §8: the KEXDH_REPLY payload after the message byte: `string K_S, mpint f (or string Q_S), string signature` -/
 def kexReply (blob f sig : Bytes) : Bytes := sstr blob ++ (sstr f ++ sstr sig)
-
-/-- the size the tool displays for a key whose length field holds a modulus of `k` bits -/
-def shownBits (k : Nat) : Nat := if (k / 8) % 2 = 0 then 8 * (k / 8) else 8 * (k / 8) + 8
 
 end Spec
 
